@@ -24,7 +24,7 @@ func selAB(tblName string, w *N, rest ...*N) *N {
 // buildPool returns the pool; the quick tier uses the first quickPoolSize statements. The pool is
 // made of families of near twins (one value / column / table / list length / clause apart) so that
 // every derived rule has both matching and non-matching statements.
-const quickPoolSize = 23
+const quickPoolSize = 25
 
 func buildPool(thorough bool) []*stmtT {
 	eq := func(c string, v *N) *N { return cmp("=", col(c), v) }
@@ -52,6 +52,13 @@ func buildPool(thorough bool) []*stmtT {
 			where(inSub(col("b"), sel(cols(col("b")), from(tbl("t2")), where(eq("c", ival("1")))))))),
 		mk("union", union("union",
 			sel(cols(col("a")), from(tbl("t1")), where(eq("b", ival("1")))),
+			sel(cols(col("a")), from(tbl("t2")), where(eq("b", ival("2")))))),
+		// unions that differ from "union" only in the right / only in the left operand
+		mk("union-right-differs", union("union",
+			sel(cols(col("a")), from(tbl("t1")), where(eq("b", ival("1")))),
+			sel(cols(col("c")), from(tbl("t2")), where(eq("b", ival("2")))))),
+		mk("union-left-differs", union("union",
+			sel(cols(col("c")), from(tbl("t1")), where(eq("b", ival("1")))),
 			sel(cols(col("a")), from(tbl("t2")), where(eq("b", ival("2")))))),
 		// --- INSERT
 		mk("ins-1", insert(tbl("t1"), icols("a", "b"), rows(row(ival("1"), sval("x"))))),
